@@ -1,5 +1,8 @@
 from __future__ import annotations
 
+import ast
+import operator
+
 import os
 from pathlib import Path
 
@@ -674,3 +677,84 @@ def fortran_md(code: str, docs: str | None):
     if docs:  # if docs is not None or ""
         msg += f"\n-----\n{docs}"
     return msg
+
+
+_PP_BIN_OPS = {
+    ast.Add: operator.add,
+    ast.Sub: operator.sub,
+    ast.Mult: operator.mul,
+    ast.Div: operator.truediv,
+    ast.FloorDiv: operator.floordiv,
+    ast.Mod: operator.mod,
+    ast.BitAnd: operator.and_,
+    ast.BitOr: operator.or_,
+    ast.BitXor: operator.xor,
+}
+_PP_CMP_OPS = {
+    ast.Eq: operator.eq,
+    ast.NotEq: operator.ne,
+    ast.Lt: operator.lt,
+    ast.LtE: operator.le,
+    ast.Gt: operator.gt,
+    ast.GtE: operator.ge,
+}
+_PP_UNARY_OPS = {
+    ast.Not: operator.not_,
+    ast.USub: operator.neg,
+    ast.UAdd: operator.pos,
+    ast.Invert: operator.invert,
+}
+
+
+def eval_pp_expr(expr: str):
+    """Evaluate a preprocessor condition that has been rewritten to Python
+    syntax (``and``, ``or``, ``not``, comparisons, integer arithmetic on
+    ``True``/``False``/integer constants).
+
+    The text comes from source files and macro definitions, hence it is
+    interpreted by this closed evaluator and never passed to ``eval``.
+    Anything else (names, calls, attributes, subscripts, ...) raises ValueError.
+
+    Examples
+    --------
+    >>> eval_pp_expr("(True) and  not (False)")
+    True
+    >>> eval_pp_expr("3 > 2 or False")
+    True
+    >>> eval_pp_expr("__import__('os')")
+    Traceback (most recent call last):
+    ValueError: unsupported preprocessor expression
+    """
+
+    def ev(node):
+        if isinstance(node, ast.Expression):
+            return ev(node.body)
+        if isinstance(node, ast.Constant) and isinstance(node.value, (bool, int)):
+            return node.value
+        if isinstance(node, ast.BoolOp):
+            result = ev(node.values[0])
+            for value in node.values[1:]:
+                if isinstance(node.op, ast.And):
+                    if not result:
+                        return result
+                elif result:
+                    return result
+                result = ev(value)
+            return result
+        if isinstance(node, ast.UnaryOp) and type(node.op) in _PP_UNARY_OPS:
+            return _PP_UNARY_OPS[type(node.op)](ev(node.operand))
+        if isinstance(node, ast.BinOp) and type(node.op) in _PP_BIN_OPS:
+            return _PP_BIN_OPS[type(node.op)](ev(node.left), ev(node.right))
+        if isinstance(node, ast.Compare) and all(
+            type(op) in _PP_CMP_OPS for op in node.ops
+        ):
+            left = ev(node.left)
+            for op, comparator in zip(node.ops, node.comparators):
+                right = ev(comparator)
+                if not _PP_CMP_OPS[type(op)](left, right):
+                    return False
+                left = right
+            return True
+        raise ValueError("unsupported preprocessor expression")
+
+    return ev(ast.parse(expr.strip(), mode="eval"))
